@@ -6,7 +6,7 @@ META = {
              'existing keys, names of symlinks to an outside dir / outside file / sibling key / the storage dir / its '
              'parent, absolute paths to outside canaries, nested paths, unicode) x operations {exists, file_handle in '
              'r/w/a/x/rb/wb/r+/w+ (then read or write+close), delete} on a freshly built sandbox (storage dir with key '
-             'dirs, plain file, symlinks; key dir containing file/dir symlinks pointing outside and a sub-directory; '
+             'dirs, plain file, symlinks; key dir containing file/dir symlinks pointing outside (existing and dangling targets) and a sub-directory; '
              'outside canary files and dirs); a quarter of the cases are multi-step histories on ONE sandbox / storage path / process (operations on a key, then the harness turns that key into a symlink to an outside directory, to the parent, to a sibling, into a plain file, or into a directory holding a file-symlink to outside, then more operations with the same or a new LocalStorage object). Monitors: full file-system snapshot (type, bytes, link target of every '
              'path under the sandbox) before/after each operation and a sys.addaudithook record of every open / '
              'mkdir / remove / rmdir / rename / rmtree / scandir / listdir under the sandbox during the operation; the '
@@ -76,6 +76,11 @@ def build_sandbox(base):
     os.symlink('metadata.json', os.path.join(st, 'k1', 'flinkin'))
     os.symlink(os.path.join('..', '..', 'outside', 'odir'), os.path.join(st, 'k1', 'dlinkout'))
     os.symlink(os.path.join('..', 'k2', 'data.pickle'), os.path.join(st, 'k1', 'flinksib'))
+    # dangling links: the target does not exist (yet), its parent directory does
+    os.symlink(os.path.join('..', '..', 'outside', 'victim.txt'), os.path.join(st, 'k1', 'fdangle_out'))
+    os.symlink(os.path.join('..', '..', 'outside', 'odir', 'victim2.txt'), os.path.join(st, 'k2', 'metadata2.json'))
+    os.symlink('not-there-yet.txt', os.path.join(st, 'k1', 'fdangle_in'))
+    os.symlink(os.path.join('..', 'outside', 'newdir'), os.path.join(st, 'kdangle'))
     return st, out
 
 
@@ -97,10 +102,10 @@ def snapshot(base):
     return snap
 
 
-KEY_ATOMS = ['', '.', '..', '/', '\\', '\0', '\n', '~', 'k1', 'k2', 'new', 'linkout', 'linksib', 'linkself',
+KEY_ATOMS = ['kdangle', '', '.', '..', '/', '\\', '\0', '\n', '~', 'k1', 'k2', 'new', 'linkout', 'linksib', 'linkself',
              'linkparent', 'linkfile', 'plainfile', '@OUT', '@OUT/odir', '@ST/k1', 'k1/sub', '../outside/odir', 'k1/..',
              'é', ' ', 'k1/', './k1', 'k1/.', '..\\outside', 'new2', '.gitignore', 'K1', '*', 'k1\\sub']
-FILE_ATOMS = ['', '.', '..', '/', 'metadata.json', 'data.pickle', 'new.txt', 'flinkout', 'flinkin', 'dlinkout',
+FILE_ATOMS = ['fdangle_out', 'fdangle_in', 'metadata2.json', '', '.', '..', '/', 'metadata.json', 'data.pickle', 'new.txt', 'flinkout', 'flinkin', 'dlinkout',
               'flinksib', 'sub', 'sub/f', '../k2/x', '../k2/metadata.json', '@OUT/secret.txt', '..\\x', 'a\0b', '~',
               'k1', 'dlinkout/inner.txt', 'dlinkout/new', './metadata.json', 'sub/../metadata.json', 'é.txt', ' ',
               '../../outside/secret.txt', '../plainfile', 'x/y']
@@ -117,7 +122,7 @@ def gen_case(rng):
     op = rng.choice(['exists', 'file_handle', 'file_handle', 'file_handle', 'delete'])
     case = {'op': op, 'key': cat(KEY_ATOMS, ['k1', 'k2', 'new', 'linksib'])}
     if op == 'file_handle':
-        case['filename'] = cat(FILE_ATOMS, ['metadata.json', 'new.txt', 'data.pickle', 'flinkin'])
+        case['filename'] = cat(FILE_ATOMS, ['metadata.json', 'new.txt', 'data.pickle', 'flinkin', 'fdangle_out', 'fdangle_in'])
         case['mode'] = rng.choice(MODES)
     return case
 
